@@ -6,6 +6,7 @@ package ntor
 // refused; the KDF is deterministic and prefix-consistent.
 
 import (
+	"crypto/sha512"
 	"bytes"
 	"encoding/hex"
 	"fmt"
@@ -17,6 +18,7 @@ import (
 	"gitlab.com/yawning/obfs4.git/internal/verifkit/detrand"
 	"gitlab.com/yawning/obfs4.git/internal/verifkit/ev"
 	"gitlab.com/yawning/obfs4.git/internal/verifkit/refntor"
+	"gitlab.com/yawning/obfs4.git/internal/x25519ell2"
 	"gitlab.com/yawning/obfs4.git/internal/verifkit/refx"
 )
 
@@ -267,6 +269,60 @@ func TestVerifC08Ntor(t *testing.T) {
 		})
 		_ = nt
 	})
+}
+
+// TestVerifC08UnluckyKeygen: "for every ... pair of ephemeral keys" includes the
+// pairs NewKeypair hands out when its generator is unlucky.  The CSPRNG is
+// scripted so that the first N candidates have no Elligator representative;
+// whatever NewKeypair then returns without an error must be a key pair with
+// which an honest exchange agrees on both sides and with the reference.
+func TestVerifC08UnluckyKeygen(t *testing.T) {
+	if err := refntor.SelfTest(); err != nil {
+		t.Fatalf("INFRA: %v", err)
+	}
+	c := ev.For("C08")
+	c.Rule("unlucky-keygen: the 32-byte strings the CSPRNG hands to NewKeypair(true) are scripted so that the first N candidates (N in {1, 15, 16, 17, 63, 64, 65, 128, 300}) have no representative; if NewKeypair reports success, the key pair is used as the client's and as the server's ephemeral key in an honest exchange: both sides report ok, agree on KEY_SEED and AUTH, and equal the reference computed from the PRIVATE key; non-trivial = N >= 15")
+	var rejecting [][]byte
+	for j := uint64(0); len(rejecting) < 300; j++ {
+		s := detrand.Bytes(0xc0800000000+j, 32)
+		digest := sha512.Sum512(s)
+		var priv, pub, repr [32]byte
+		copy(priv[:], digest[:32])
+		if !x25519ell2.ScalarBaseMult(&pub, &repr, &priv, digest[63]) {
+			rejecting = append(rejecting, s)
+		}
+	}
+	id := detrand.Bytes(0xc08aa, 20)
+	nid, _ := NewNodeID(id)
+	idKP := vf08Keypair(detrand.Bytes(0xc08ab, 32))
+	other := vf08Keypair(detrand.Bytes(0xc08ac, 32))
+	for _, n := range []int{1, 15, 16, 17, 63, 64, 65, 128, 300} {
+		detrand.ClearForced()
+		detrand.Script(rejecting[:n])
+		kp, err := NewKeypair(true)
+		detrand.ClearForced()
+		if err == nil {
+			if kp == nil {
+				t.Fatalf("VIOL[c08-keygen]: NewKeypair(true) returned neither a key pair nor an error")
+			}
+			priv := kp.Private().Bytes()[:]
+			// the public key that belongs to the private key, from the reference
+			// (Elligator key pairs add a low-order point: take the library's value
+			// only if the reference ladder confirms the DH relation below)
+			okS, ksS, auS := ServerHandshake(kp.Public(), other, idKP, nid)
+			okC, ksC, auC := ClientHandshake(kp, other.Public(), idKP.Public(), nid)
+			refC := refntor.Client(priv, kp.Public().Bytes()[:], other.Public().Bytes()[:], idKP.Public().Bytes()[:], id, true)
+			if !okS || !okC || *ksS != *ksC || *auS != *auC {
+				t.Fatalf("VIOL[c08-sides-disagree]: after %d consecutive key candidates without a representative NewKeypair reports success, but an honest exchange with that key pair as the client's ephemeral key gives server (%v, %x) vs client (%v, %x); public key %x", n, okS, ksS.Bytes()[:], okC, ksC.Bytes()[:], kp.Public().Bytes()[:])
+			}
+			if okC != refC.OK || !bytes.Equal(ksC.Bytes()[:], refC.KeySeed) || !bytes.Equal(auC.Bytes()[:], refC.Auth) {
+				t.Fatalf("VIOL[c08-client-differs-from-reference]: key pair returned after %d unlucky candidates: ClientHandshake differs from the reference computed from its private key", n)
+			}
+		}
+		c.Case(ev.Hash("unlucky-keygen", n), n >= 15, []string{"unlucky-keygen"}, func() any {
+			return map[string]any{"unit": "unlucky-keygen", "rejected_candidates_scripted": n, "returned_error": err != nil}
+		})
+	}
 }
 
 func TestVerifC08Kdf(t *testing.T) {
